@@ -36,9 +36,10 @@ func verifC19sTol() float64 {
 	return 0
 }
 
-// VerifC19_SimplexOneRow: m = 1 constraint, n = 2..3 variables.
+// VerifC19_SimplexOneRow: m = 1 constraint, n = 1..3 variables (n = 1: the exactly
+// constrained branch, a plain linear solve).
 func VerifC19_SimplexOneRow() {
-	n := verifChoose("n", 2, verifParam("c19lpn", 3))
+	n := verifChoose("n", 1, verifParam("c19lpn", 3))
 	lo, hi := verifParam("c19lplo", -1), verifParam("c19lphi", 2)
 	a := make([]float64, n)
 	for j := range a {
